@@ -1055,8 +1055,8 @@ func enumSite(plan any, datas []any) bool {
 			}
 			for i, x := range t {
 				if i == 0 {
-					if _, isStr := x.(string); isStr {
-						continue // the function name
+					if fs, isStr := x.(string); isStr && !(fs != "" && (fs[0] == '$' || fs[0] == '@')) {
+						continue // the function name (a path text in first position, as in a cond pair, is an argument)
 					}
 				}
 				if walk(x, h, true) {
